@@ -1,0 +1,68 @@
+//go:build verif
+
+// Contracts for package circuit, checked by /verif (ssovc). Comment-only file.
+package circuit
+
+// $tickets: thread-local ghost — calls this thread has been admitted for and has not completed.
+// It is not guarded by the mutex (no other thread can change it), so it survives Lock().
+//@ type Breaker
+//@   ghost field $tickets int
+//@   guarded_by state, counts, backoffExpires, generation : mutex
+//@   typeinv inflight_nonneg: counts.CurrentRequests >= $tickets && $tickets >= 0
+//@   typeinv counters_nonneg: counts.ConsecutiveSuccesses >= 0 && counts.ConsecutiveFailures >= 0
+//@   typeinv three_states: state == StateClosed || state == StateHalfOpen || state == StateOpen
+//@   typeinv generation_nonneg: generation >= 0
+//@   dyn shouldTripFunc pure
+//@   dyn shouldResetFunc pure
+//@   dyn backoffDurationFunc fresh
+//@   dyn onStateChange effectfree
+//@   dyn onBackoff effectfree
+
+// locked(e) is the value of e when this call acquired the mutex; `clock` is the last clock reading.
+// eff: the state a caller observes — an open breaker whose back-off deadline has passed is half-open.
+//@ func (b *Breaker) beforeRequest() (int, error)
+//@   modifies b.state, b.generation, b.counts, b.$tickets, clock
+//@   let st0 = locked(b.state)
+//@   let expired = clock > locked(b.backoffExpires)
+//@   let cur0 = locked(b.counts.CurrentRequests)
+//@   ghostat onRequest#1: b.$tickets = b.$tickets + 1
+//@   ensures [C15] closed_admits: st0 == StateClosed ==> result.1 == nil
+//@   ensures [C15] open_rejects: st0 == StateOpen && !expired ==> result.1 != nil && b.state == StateOpen && b.generation == locked(b.generation)
+//@   ensures [C15] open_to_halfopen: st0 == StateOpen && expired ==> b.state == StateHalfOpen && b.generation == locked(b.generation) + 1 && (result.1 == nil <==> cur0 < b.halfOpenRequests)
+//@   ensures [C15] halfopen_cap: st0 == StateHalfOpen ==> (result.1 == nil <==> cur0 < b.halfOpenRequests) && b.state == StateHalfOpen
+//@   ensures [C15] admitted: result.1 == nil ==> b.counts.CurrentRequests == cur0 + 1 && result.0 == b.generation && b.$tickets == old(b.$tickets) + 1
+//@   ensures [C15] rejected: result.1 != nil ==> b.counts.CurrentRequests == cur0 && b.$tickets == old(b.$tickets)
+//@   ensures [C15] counters_kept: b.counts.ConsecutiveSuccesses == locked(b.counts.ConsecutiveSuccesses) && b.counts.ConsecutiveFailures == locked(b.counts.ConsecutiveFailures)
+
+// S1/G1: state and generation after the clock-driven Open->HalfOpen step (what currentState returned).
+//@ func (b *Breaker) afterRequest(success bool, prevGeneration int)
+//@   requires admitted_before: b.$tickets >= 1
+//@   modifies b.state, b.generation, b.counts, b.backoffExpires, b.$tickets, clock
+//@   let S1 = @currentState#1.0
+//@   let G1 = @currentState#1.1
+//@   let succ0 = locked(b.counts.ConsecutiveSuccesses)
+//@   let fail0 = locked(b.counts.ConsecutiveFailures)
+//@   let cur1 = locked(b.counts.CurrentRequests) - 1
+//@   ghostat afterRequest#1: b.$tickets = b.$tickets - 1
+//@   ensures [C15] inflight_down: b.counts.CurrentRequests == cur1 && cur1 >= 0 && b.$tickets == old(b.$tickets) - 1
+//@   ensures [C15] observed_state: called(@currentState#1) && G1 == (locked(b.state) == StateOpen && S1 == StateHalfOpen ? locked(b.generation) + 1 : locked(b.generation)) && (S1 == locked(b.state) || (locked(b.state) == StateOpen && S1 == StateHalfOpen))
+//@   ensures [C15] stale_ignored: prevGeneration != G1 ==> b.state == S1 && b.generation == G1 && b.counts.ConsecutiveSuccesses == succ0 && b.counts.ConsecutiveFailures == fail0 && b.backoffExpires == locked(b.backoffExpires)
+//@   ensures [C15] closed_success: prevGeneration == G1 && success && S1 == StateClosed ==> b.state == StateClosed && b.generation == G1 && b.counts.ConsecutiveSuccesses == succ0 + 1 && b.counts.ConsecutiveFailures == 0
+//@   ensures [C15] close_iff_reset: prevGeneration == G1 && success && S1 == StateHalfOpen ==> (apply(b.shouldResetFunc, cur1, succ0 + 1, 0) ? b.state == StateClosed && b.generation == G1 + 1 && b.counts.ConsecutiveSuccesses == 0 && b.counts.ConsecutiveFailures == 0 : b.state == StateHalfOpen && b.generation == G1 && b.counts.ConsecutiveSuccesses == succ0 + 1 && b.counts.ConsecutiveFailures == 0)
+//@   ensures [C15] trip_iff_rule: prevGeneration == G1 && !success && S1 == StateClosed ==> (apply(b.shouldTripFunc, cur1, 0, fail0 + 1) ? b.state == StateOpen && b.generation == G1 + 1 && b.counts.ConsecutiveFailures == 0 && b.counts.ConsecutiveSuccesses == 0 && called(@setBackoff:backoffDurationFunc#1) && b.backoffExpires == clock + @setBackoff:backoffDurationFunc#1 : b.state == StateClosed && b.generation == G1 && b.counts.ConsecutiveFailures == fail0 + 1 && b.counts.ConsecutiveSuccesses == 0 && b.backoffExpires == locked(b.backoffExpires))
+//@   ensures [C15] halfopen_failure_reopens: prevGeneration == G1 && !success && S1 == StateHalfOpen ==> b.state == StateOpen && b.generation == G1 + 1 && called(@setBackoff:backoffDurationFunc#1) && b.backoffExpires == clock + @setBackoff:backoffDurationFunc#1
+//@   ensures [C15] success_keeps_backoff: prevGeneration == G1 && success ==> b.backoffExpires == locked(b.backoffExpires)
+
+//@ func (b *Breaker) Call(f func() (interface{}, error)) (interface{}, error)
+//@   requires tickets_nonneg: b.$tickets >= 0
+//@   preserves f: b.$tickets
+//@   sink [C15] runs_only_if_admitted: f requires called(@beforeRequest#1) && @beforeRequest#1.1 == nil
+//@   ensures [C15] rejected_unrun: @beforeRequest#1.1 != nil ==> !called(@f#1) && !called(@afterRequest#1) && result.1 == @beforeRequest#1.1
+//@   ensures [C15] paired: called(@f#1) ==> called(@afterRequest#1) && arg(@afterRequest#1, 1) == (@f#1.1 == nil) && arg(@afterRequest#1, 2) == @beforeRequest#1.0
+//@   ensures [C15] outcome: called(@f#1) ==> result.0 == @f#1.0 && result.1 == @f#1.1
+//@   ensures [C15] tickets_balanced: b.$tickets == old(b.$tickets)
+
+//@ func NewBreaker(opts *Options) *Breaker
+//@   fresh result
+//@   ensures [C15] starts_closed: result.state == StateClosed && result.generation == 0 && result.counts.CurrentRequests == 0 && result.counts.ConsecutiveFailures == 0 && result.counts.ConsecutiveSuccesses == 0
+//@   ensures [C15] halfopen_limit_positive: result.halfOpenRequests >= 1
